@@ -418,6 +418,13 @@ func (p *Program) exec(t *rapid.T, s *Stmt, env []Val, r *Run) Val {
 				t.Error(fmt.Sprintf("m%d", s.Msg))
 			case "fail":
 				t.Fail()
+			case "error-noargs": // like testing.T.Error(): marks the test failed, logs an empty line
+				t.Error()
+			case "errorf-empty":
+				t.Errorf("")
+			case "fail-then-errorf-empty":
+				t.Fail()
+				t.Errorf("")
 			case "fatalf":
 				t.Fatalf("m%d", s.Msg)
 			case "fatal":
